@@ -40,7 +40,7 @@ def program_sets(tier):
     (else-suites, handlers and finally blocks only exist from three nodes on)."""
     return [("gen", dict()), ("ctl", dict(size=C.SIZE[tier] + 1, only=BIND_CTL, key=("c02ctl", tier))),
             # rich signatures (positional-only, defaults, *rest, keyword-only, **kw, docstring) on one-node programs
-            ("sig", dict(size=1 if tier == "quick" else 2, sigs=("rich", "kwonly", "doc", "closure-default"), key=("c02sig", tier))),
+            ("sig", dict(size=1 if tier == "quick" else 2, sigs=("rich", "kwonly", "doc", "closure-default", "closure-annot"), key=("c02sig", tier))),
             C.odd_set(tier)] + C.core3_sets(tier)
 
 
